@@ -1,6 +1,6 @@
 (* Proofs about model/Labels.v, GoQuote.v, LabelJson.v (property C04). *)
 From Coq Require Import List ZArith Lia Permutation String Ascii Bool.
-From Qryn Require Import model.GoQuote model.LabelJson model.Fingerprint model.Labels proofs.FingerprintProofs.
+From Qryn Require Import model.GoQuote model.LabelJson model.Fingerprint model.Labels proofs.FingerprintProofs proofs.Utf8Proofs.
 Import ListNotations.
 Open Scope Z_scope.
 
@@ -199,8 +199,135 @@ Proof.
   rewrite length_append. pose proof (quote_body_safe_length ip v Hs). lia.
 Qed.
 
+(* ------------------------------------------------------------------ the exact class: multi-byte runes *)
+Lemma qb_skip ip : forall k s, quote_body ip k s = quote_body ip 0 (sdrop k s).
+Proof.
+  induction k as [|k IH]; intros s; [destruct s; reflexivity|].
+  destruct s as [|c r]; [reflexivity|]. cbn [quote_body sdrop]. apply IH.
+Qed.
+
+Lemma ok_skip ip : forall k s, json_ok_str ip k s = json_ok_str ip 0 (sdrop k s).
+Proof.
+  induction k as [|k IH]; intros s; [destruct s; reflexivity|].
+  destruct s as [|c r]; [reflexivity|]. cbn [json_ok_str sdrop]. apply IH.
+Qed.
+
+(* the two ways a non-empty string of the class starts *)
+Lemma ok_str_cases ip c r : json_ok_str ip 0 (String c r) = true ->
+  (json_safe_byte (byte c) = true /\ json_ok_str ip 0 r = true /\
+   quote_body ip 0 (String c r) = append (esc_ascii c) (quote_body ip 0 r)) \/
+  (exists rn w p v', 128 <= byte c /\ rune_at c r rn w p v' /\ (isprint_or_bmp ip rn = true) /\
+   json_ok_str ip 0 v' = true /\ quote_body ip 0 (String c r) = append (esc_rune ip rn p) (quote_body ip 0 v')).
+Proof.
+  intros H. cbn [json_ok_str] in H. destruct (byte c <? 128) eqn:E.
+  - left. apply andb_true_iff in H. destruct H as [H1 H2]. split; [assumption|]. split; [assumption|].
+    now apply quote_body_safe_cons.
+  - right. apply Z.ltb_ge in E. destruct (decode_rune (String c r)) as [[rn w]|] eqn:D; [|discriminate H].
+    apply andb_true_iff in H. destruct H as [H1 H2].
+    destruct (decode_rune_multibyte c r rn w E D) as [p [v' R]].
+    exists rn, w, p, v'. split; [assumption|]. split; [assumption|]. split; [exact H1|]. split.
+    + rewrite ok_skip in H2. now rewrite (ra_drop_tail _ _ _ _ _ _ R) in H2.
+    + cbn [quote_body]. replace (byte c <? 128) with false by (symmetry; apply Z.ltb_ge; lia).
+      rewrite D. rewrite (ra_take _ _ _ _ _ _ R). f_equal.
+      rewrite qb_skip. now rewrite (ra_drop_tail _ _ _ _ _ _ R).
+Qed.
+
+Lemma byte_u : byte "u" = 117. Proof. reflexivity. Qed.
+
+(* reading back one escaped multi-byte rune *)
+Lemma parse_str_esc_rune ip c r rn w p v' f t :
+  128 <= byte c -> rune_at c r rn w p v' -> isprint_or_bmp ip rn = true ->
+  parse_str (S f) (append (esc_rune ip rn p) t) = omap (prepend p) (parse_str f t).
+Proof.
+  intros Hc R Hk. unfold esc_rune. unfold isprint_or_bmp in Hk.
+  destruct (ra_again _ _ _ _ _ _ R t) as [A1 [A2 A3]].
+  destruct (ip rn) eqn:Ep.
+  - (* printable: the raw bytes *)
+    destruct (ra_head _ _ _ _ _ _ R) as [q Hq]. rewrite Hq in *. cbn [append] in *.
+    rewrite parse_str_unfold. cbv zeta.
+    replace (byte c =? 34) with false by (symmetry; apply Z.eqb_neq; lia).
+    replace (byte c =? 92) with false by (symmetry; apply Z.eqb_neq; lia).
+    replace (byte c <? 32) with false by (symmetry; apply Z.ltb_ge; lia).
+    replace (byte c <? 128) with false by (symmetry; apply Z.ltb_ge; lia).
+    rewrite A1, A2, A3. reflexivity.
+  - (* not printable, below U+10000: \uXXXX *)
+    cbn [orb] in Hk. rewrite Hk. apply Z.ltb_lt in Hk.
+    destruct (ra_bmp _ _ _ _ _ _ R Hk) as [B1 [B2 B3]].
+    cbn [append]. rewrite parse_str_unfold. cbv zeta. rewrite byte_bs.
+    change (92 =? 34) with false. change (92 =? 92) with true. cbv iota.
+    rewrite byte_u. change (simple_escape 117) with (@None ascii). cbv iota. change (117 =? 117) with true. cbv iota.
+    rewrite hex4_hexn by lia.
+    replace (in_rng 55296 56319 rn) with false by (symmetry; unfold in_rng; apply andb_false_iff; rewrite Z.leb_gt, Z.leb_gt; lia).
+    replace (in_rng 56320 57343 rn) with false by (symmetry; unfold in_rng; apply andb_false_iff; rewrite Z.leb_gt, Z.leb_gt; lia).
+    now rewrite B1.
+Qed.
+
+Lemma parse_str_quote_body_ok ip : forall n v, (String.length v <= n)%nat -> json_ok_str ip 0 v = true ->
+  forall fuel rest, (String.length v < fuel)%nat ->
+  parse_str fuel (append (quote_body ip 0 v) (String dq rest)) = Some (v, rest).
+Proof.
+  induction n as [|n IH]; intros v Hn Hok fuel rest Hf.
+  - destruct v; [|cbn in Hn; lia]. destruct fuel as [|f]; [cbn in Hf; lia|].
+    cbn [quote_body append]. rewrite parse_str_unfold. cbv zeta. rewrite byte_dq. reflexivity.
+  - destruct v as [|c r].
+    + destruct fuel as [|f]; [cbn in Hf; lia|].
+      cbn [quote_body append]. rewrite parse_str_unfold. cbv zeta. rewrite byte_dq. reflexivity.
+    + destruct fuel as [|f]; [cbn in Hf; lia|]. cbn [String.length] in Hn, Hf.
+      destruct (ok_str_cases ip c r Hok) as [[Hc [Hr Hq]]|[rn [w [p [v' [Hc [R [Hk [Hv' Hq]]]]]]]]].
+      * rewrite Hq, append_assoc, (parse_str_esc_ascii c f _ Hc).
+        rewrite (IH r) by (assumption || lia). reflexivity.
+      * rewrite Hq, append_assoc, (parse_str_esc_rune ip c r rn w p v' f _ Hc R Hk).
+        pose proof (ra_len _ _ _ _ _ _ R) as Hl. cbn [String.length] in Hl.
+        rewrite (IH v') by (assumption || lia). cbn [omap prepend fst snd].
+        now rewrite (ra_split _ _ _ _ _ _ R).
+Qed.
+
+(* the quoted form is never shorter than the string *)
+Lemma rune_at_plen c r rn w p v' : rune_at c r rn w p v' ->
+  (String.length (String c r) = String.length p + String.length v')%nat.
+Proof. intros R. rewrite (ra_split _ _ _ _ _ _ R). apply length_append. Qed.
+
+Lemma hexn_length k r : String.length (hexn k r) = k.
+Proof.
+  revert r. induction k as [|k IH]; intros r; [reflexivity|].
+  cbn [hexn]. rewrite length_append, IH. cbn. lia.
+Qed.
+
+Lemma rune_at_pmax c r rn w p v' : 128 <= byte c -> rune_at c r rn w p v' -> rn < 65536 -> (String.length p <= 3)%nat.
+Proof.
+  intros Hc R Hlt. destruct (ra_bmp _ _ _ _ _ _ R Hlt) as [B1 _]. rewrite <- B1. unfold encode_rune.
+  destruct (rn <? 128); [cbn; lia|]. destruct (rn <? 2048); [cbn; lia|].
+  destruct (rn <? 65536) eqn:E; [cbn; lia|]. apply Z.ltb_ge in E. lia.
+Qed.
+
+Lemma quote_body_ok_length ip : forall n v, (String.length v <= n)%nat -> json_ok_str ip 0 v = true ->
+  (String.length v <= String.length (quote_body ip 0 v))%nat.
+Proof.
+  induction n as [|n IH]; intros v Hn Hok.
+  - destruct v; [cbn; lia|cbn in Hn; lia].
+  - destruct v as [|c r]; [cbn; lia|]. cbn [String.length] in Hn.
+    destruct (ok_str_cases ip c r Hok) as [[Hc [Hr Hq]]|[rn [w [p [v' [Hc [R [Hk [Hv' Hq]]]]]]]]].
+    + rewrite Hq, length_append. cbn [String.length].
+      pose proof (esc_ascii_nonempty c). specialize (IH r ltac:(lia) Hr). lia.
+    + rewrite Hq, length_append, (rune_at_plen _ _ _ _ _ _ R).
+      pose proof (ra_len _ _ _ _ _ _ R) as Hl. cbn [String.length] in Hl.
+      specialize (IH v' ltac:(lia) Hv').
+      assert (String.length p <= String.length (esc_rune ip rn p))%nat; [|lia].
+      unfold esc_rune. unfold isprint_or_bmp in Hk. destruct (ip rn); [lia|]. cbn [orb] in Hk. rewrite Hk.
+      apply Z.ltb_lt in Hk. pose proof (rune_at_pmax _ _ _ _ _ _ Hc R Hk).
+      cbn [String.length]. rewrite hexn_length. lia.
+Qed.
+
+Lemma parse_str_after_quote_ok ip v rest : json_ok_str ip 0 v = true ->
+  parse_str (S (String.length (append (quote_body ip 0 v) (String dq rest))))
+            (append (quote_body ip 0 v) (String dq rest)) = Some (v, rest).
+Proof.
+  intros Hs. apply (parse_str_quote_body_ok ip (String.length v)); [lia|assumption|].
+  rewrite length_append. pose proof (quote_body_ok_length ip _ v (le_n _) Hs). lia.
+Qed.
+
 (* ------------------------------------------------------------------ members *)
-Definition pair_safe (l : label) : bool := json_safe (fst l) && json_safe (snd l).
+Definition pair_ok (ip : Z -> bool) (l : label) : bool := json_ok_str ip 0 (fst l) && json_ok_str ip 0 (snd l).
 
 Lemma enc_pair_append ip l tail :
   append (enc_pair ip l) tail =
@@ -211,7 +338,7 @@ Proof.
 Qed.
 
 (* one member followed by [tail]: the reader gets the pair and stands at [tail] *)
-Lemma parse_members_step ip l tail f : pair_safe l = true ->
+Lemma parse_members_step ip l tail f : pair_ok ip l = true ->
   parse_members (S f) (append (enc_pair ip l) tail) =
     match skip_ws tail with
     | String d r5 =>
@@ -221,14 +348,14 @@ Lemma parse_members_step ip l tail f : pair_safe l = true ->
     | EmptyString => None
     end.
 Proof.
-  intros Hs. unfold pair_safe in Hs. apply andb_true_iff in Hs. destruct Hs as [Hk Hv].
+  intros Hs. unfold pair_ok in Hs. apply andb_true_iff in Hs. destruct Hs as [Hk Hv].
   destruct l as [k v]. cbn [fst snd] in *.
   rewrite enc_pair_append. cbn [fst snd].
   cbn [parse_members]. rewrite (skip_ws_nonws dq) by reflexivity. rewrite byte_dq. change (34 =? 34) with true. cbv iota.
-  rewrite (parse_str_after_quote ip k _ Hk).
+  rewrite (parse_str_after_quote_ok ip k _ Hk).
   rewrite (skip_ws_nonws ":"%char) by reflexivity. change (byte ":" =? 58) with true. cbv iota.
   rewrite (skip_ws_nonws dq) by reflexivity. rewrite byte_dq. change (34 =? 34) with true. cbv iota.
-  rewrite (parse_str_after_quote ip v _ Hv). reflexivity.
+  rewrite (parse_str_after_quote_ok ip v _ Hv). reflexivity.
 Qed.
 
 Lemma enc_join_cons2 ip l m r :
@@ -238,7 +365,7 @@ Proof. reflexivity. Qed.
 Lemma enc_pair_head ip l tail : exists r, append (enc_pair ip l) tail = String dq r.
 Proof. rewrite enc_pair_append. eexists. reflexivity. Qed.
 
-Lemma parse_members_enc_join ip : forall ls, ls <> [] -> forallb pair_safe ls = true ->
+Lemma parse_members_enc_join ip : forall ls, ls <> [] -> forallb (pair_ok ip) ls = true ->
   forall fuel, (List.length ls <= fuel)%nat ->
   parse_members fuel (append (enc_join ip ls) "}") = Some ls.
 Proof.
@@ -268,12 +395,10 @@ Proof.
   - rewrite enc_join_cons2, length_append. cbn [String.length List.length] in *. specialize (Hp l). lia.
 Qed.
 
-Lemma labels_safe_pair_safe ls : labels_safe ls = forallb pair_safe ls.
-Proof. reflexivity. Qed.
-
-(* the partial round trip: label sets whose bytes are printable ASCII or \b \f \n \r \t *)
-Lemma label_document_roundtrip_safe ip ls :
-  labels_safe ls = true -> json_decode (encode_labels ip ls) = Some ls.
+(* the round trip on the exact class: printable ASCII, \b \f \n \r \t, well-formed printable runes and
+   well-formed non-printable runes below U+10000 *)
+Lemma label_document_roundtrip_ok ip ls :
+  labels_json_ok ip ls = true -> json_decode (encode_labels ip ls) = Some ls.
 Proof.
   intros Hs. unfold encode_labels, json_decode.
   rewrite (skip_ws_nonws "{"%char) by reflexivity. change (byte "{" =? 123) with true. cbv iota.
@@ -283,9 +408,27 @@ Proof.
     assert (E : append (enc_join ip (l :: r)) "}" = String dq x).
     { rewrite <- Hx. destruct r as [|m r]; [reflexivity|]. rewrite enc_join_cons2, append_assoc. reflexivity. }
     rewrite E. rewrite (skip_ws_nonws dq) by reflexivity. rewrite byte_dq. change (34 =? 125) with false. cbv iota.
-    rewrite <- E. apply parse_members_enc_join; [discriminate|assumption|].
+    rewrite <- E. apply parse_members_enc_join; [discriminate|exact Hs|].
     rewrite length_append. pose proof (enc_join_length ip (l :: r)). lia.
 Qed.
+
+Lemma safe_is_ok ip v : json_safe v = true -> json_ok_str ip 0 v = true.
+Proof.
+  induction v as [|c v IH]; intros H; [reflexivity|].
+  cbn [json_safe] in H. apply andb_true_iff in H. destruct H as [H1 H2].
+  cbn [json_ok_str]. rewrite (safe_byte_lt128 _ H1), H1. cbn [andb]. now apply IH.
+Qed.
+
+Lemma labels_safe_is_ok ip ls : labels_safe ls = true -> labels_json_ok ip ls = true.
+Proof.
+  unfold labels_safe, labels_json_ok. rewrite !forallb_forall. intros H l Hl. specialize (H l Hl).
+  apply andb_true_iff in H. destruct H as [H1 H2]. now rewrite !safe_is_ok.
+Qed.
+
+(* the partial round trip: label sets whose bytes are printable ASCII or \b \f \n \r \t *)
+Lemma label_document_roundtrip_safe ip ls :
+  labels_safe ls = true -> json_decode (encode_labels ip ls) = Some ls.
+Proof. intros H. apply label_document_roundtrip_ok. now apply labels_safe_is_ok. Qed.
 
 (* the full statement is false of the model: Go's escapes \x01 \a \v \x7f \U... are not JSON *)
 Definition bad_label_sets : list (list label) :=
@@ -316,3 +459,11 @@ Example series_fp_instance :
   series_fp (tbl_ch64 []) hash128to64 fin24 LokiJsonStream 0 [("b.x"%string, "1"%string); ("a"%string, "2"%string)] =
   series_fp (tbl_ch64 []) hash128to64 fin24 PromRemoteWrite 0 [("a"%string, "2"%string); ("b.x"%string, "1"%string)].
 Proof. apply series_fp_independent. apply perm_swap. Qed.
+
+(* the exact class contains multi-byte text: e-acute (printable, raw), U+0080 (not printable, \u0080) *)
+Definition ex_utf8_labels : list label :=
+  [("city"%string, String (chr 195) (String (chr 169) "t"%string));
+   ("ctl"%string, String (chr 194) (String (chr 128) EmptyString))].
+Example roundtrip_class_satisfiable :
+  labels_json_ok (isprint_tbl []) ex_utf8_labels = true /\ labels_safe ex_utf8_labels = false.
+Proof. split; vm_compute; reflexivity. Qed.
